@@ -45,7 +45,9 @@ impl EventGen for ReuseElement {
             context.pop_element();
         })?;
         instance_element.expand_compound_size();
-        let instance_size = instance_element.size(context)?;
+        let instance_size = instance_element.size(context).inspect_err(|_| {
+            context.pop_element();
+        })?;
 
         // Override 'default' attr values in the target
         for (attr, value) in reuse_element.get_attrs() {
@@ -101,7 +103,9 @@ impl EventGen for ReuseElement {
         // TODO: This isn't ideal. resolve_position() is needed to handle
         // relpos positioning (`xy="#a|h"` etc), but the Position-based
         // stuff fully handles other positioning. Should be unified.
-        reuse_element.resolve_position(context)?;
+        reuse_element.resolve_position(context).inspect_err(|_| {
+            context.pop_element();
+        })?;
 
         let mut pos = Position::from(&reuse_element);
         if let Some(bb) = context.get_element(&elref).and_then(|el| el.content_bbox) {
